@@ -10,6 +10,7 @@ import (
 	"github.com/aperturerobotics/bifrost/link"
 	"github.com/aperturerobotics/bifrost/peer"
 	"github.com/aperturerobotics/bifrost/transport"
+	"github.com/aperturerobotics/bifrost/util/verifhook"
 	"github.com/quic-go/quic-go"
 	"github.com/sirupsen/logrus"
 )
@@ -326,6 +327,7 @@ func (t *Transport) handleLinkLost(addrStr string, lnk *Link) {
 	if t.handler != nil && rel {
 		t.handler.HandleLinkLost(lnk)
 	}
+	verifhook.Event("quic.linklost.done", t, lnk, rel) // verif: the transport finished processing the loss
 }
 
 // _ is a type assertion
